@@ -41,6 +41,8 @@ def lin_expr(rng, nums, depth=0, need_id_first=True):
         return e, val
     if r < 0.45:   # c * x  written x * c
         c = rng.choice([2, 3, F(1, 2), F(5, 2), 4])
+        if rng.random() < 0.3:
+            return ('mul', [num(c, isinstance(c, int)), e]), val * c
         return ('mul', [e, num(c, isinstance(c, int))]), val * c
     if r < 0.55:
         c = rng.choice([2, 4, F(1, 2), 5])
@@ -60,6 +62,10 @@ def lin_expr(rng, nums, depth=0, need_id_first=True):
         ops.append(o)
         vals.append(ov)
     if rng.random() < 0.5:
+        if rng.random() < 0.3:      # any operand first (a literal, a negation, a parenthesised sum)
+            perm = list(range(len(ops)))
+            rng.shuffle(perm)
+            ops = [ops[i] for i in perm]
         return ('add', ops), sum(vals, F(0))
     r = vals[0]
     for x in vals[1:]:
@@ -897,6 +903,57 @@ def directed_narrowing():
               [('local', ('ref', 'Crate'), 'y', None), ('formula', False, 'cy', ['arm'], 'Arm:Carry', [('c', var('y'))])],
               [X, ('formula', True, 'cy', ['arm'], 'Arm:Carry', [('c', var('x'))])]):
         prog = {'classes': cls, 'preds': preds, 'main': inst + m}
+        out.append((prog, A.pp_program(prog)))
+    return out
+
+
+def directed_both():
+    """C06: FACTS of a plain predicate (global scope or a class that is no smart type) that reaches BOTH Impulse and Interval through
+    its super-predicates, in either order and through empty intermediate predicates, with explicit start / end / at / duration values
+    away from the all-zero default. Such a fact gets both rules (solver::new_atom): every active one satisfies the Interval conditions
+    and the Impulse condition, or the problem is unsolvable."""
+    out = []
+    R = lambda v: num(v, False)
+    S1 = {'name': 'Sample', 'owner': None, 'params': [('value', 'real')], 'supers': ['Impulse', 'Interval'], 'body': []}
+    S2 = {'name': 'Sample2', 'owner': None, 'params': [('value', 'real')], 'supers': ['Interval', 'Impulse'], 'body': []}
+    MI = {'name': 'BMI', 'owner': None, 'params': [], 'supers': ['Impulse'], 'body': []}
+    MV = {'name': 'BMV', 'owner': None, 'params': [], 'supers': ['Interval'], 'body': []}
+    S3 = {'name': 'Sample3', 'owner': None, 'params': [('value', 'real')], 'supers': ['BMI', 'BMV'], 'body': []}
+    S4 = {'name': 'Sample4', 'owner': None, 'params': [], 'supers': ['BMV', 'Sample'], 'body': [('expr', ('ge', var('value'), R(0)))]}
+    probe = {'name': 'Probe', 'kind': 'class', 'supers': [], 'fields': [], 'ctors': []}
+    PR = {'name': 'Probe:Read', 'owner': 'Probe', 'params': [('value', 'real')], 'supers': ['Impulse', 'Interval'], 'body': []}
+    preds = [S1, S2, MI, MV, S3, S4]
+    f = lambda *path: var('f', *path)
+    argsets = [
+        [('start', R(5)), ('end', R(20)), ('at', R(7))],                 # solvable
+        [('start', R(10)), ('end', R(5))],                               # unsolvable
+        [('at', R(4))],                                                  # with horizon <= 3: unsolvable
+        [('start', R(2)), ('end', R(6)), ('duration', R(1))],            # unsolvable
+        [('start', R(5)), ('end', R(20))],                               # solvable, at free
+        [('at', R(9))],                                                  # solvable, the interval part free
+        [('start', R(3)), ('duration', R(4)), ('at', R(30))],            # solvable: end = 7, horizon >= 30
+    ]
+    for pi, pred in enumerate(('Sample', 'Sample2', 'Sample3', 'Sample4')):
+        for ai, args in enumerate(argsets):
+            if (pi + ai) % 2 and pi >= 2 and ai >= 4:
+                continue
+            main = [('formula', True, 'f', [], pred, args)]
+            if ai == 2:
+                main.append(('expr', ('le', var('horizon'), R(3))))
+            if ai == 5:
+                main.append(('expr', ('ge', f('start'), R(12))))          # the Interval rule then needs end >= 12, horizon >= 12
+            prog = {'classes': [], 'preds': preds, 'main': main}
+            out.append((prog, A.pp_program(prog)))
+    # the same fact next to a goal of the same predicate (the goal gets both rules through apply_rule)
+    prog = {'classes': [], 'preds': preds, 'main': [('formula', True, 'f', [], 'Sample', [('start', R(5)), ('end', R(20)), ('at', R(7))]),
+                                                    ('formula', False, 'g', [], 'Sample', [('start', R(30))])]}
+    out.append((prog, A.pp_program(prog)))
+    # inside a class that is no smart type
+    for ai, args in enumerate(argsets[:5]):
+        main = [('new', 'Probe', 'pb', []), ('formula', True, 'f', ['pb'], 'Probe:Read', args)]
+        if ai == 2:
+            main.append(('expr', ('le', var('horizon'), R(3))))
+        prog = {'classes': [probe], 'preds': [PR], 'main': main}
         out.append((prog, A.pp_program(prog)))
     return out
 
